@@ -306,7 +306,7 @@ func runC11(c *Ctx) {
 		total := int64(1) << uint(edgeCount(n))
 		c.parFor(total, 256, func(lo, hi int64) {
 			for m := lo; m < hi; m++ {
-				for _, rep := range []string{"sparse", "cocomplement", "induced-view"} {
+				for _, rep := range []string{"sparse", "cocomplement", "induced-view", "dense-bytes", "nested-view"} {
 					pc := planarCase{N: n, Mask: uint64(m), G6: g6(n, uint64(m)), Rep: rep}
 					c.Check(func() *Failure { return evalPlanarSmall(pc, tables) })
 				}
